@@ -331,10 +331,31 @@ def correspondence(ctx):
                     and isinstance(n.body[0].value.value, str):
                 n.body = n.body[1:] or [ast.Pass()]
         return ast.unparse(t)
+    def closure_text(mod, alias, f):
+        """normalised text of f together with the private module-level helpers and plain constants it reaches (as gen_c14 does,
+        written again): moving the 2*pi of a convention-dependent function into a helper must not make it look identical"""
+        seen, todo, parts = [], [f], []
+        while todo:
+            g = todo.pop()
+            if g in seen:
+                continue
+            seen.append(g)
+            o = getattr(mod, g, None)
+            if inspect.isfunction(o) and o.__module__ == mod.__name__:
+                src = inspect.getsource(o)
+                parts.append(g + ':' + norm(src, alias) if g != f else norm(src, alias))
+                for nd in ast.walk(ast.parse(src)):
+                    if isinstance(nd, ast.Name) and nd.id != g:
+                        h = getattr(mod, nd.id, None)
+                        if inspect.isfunction(h) and h.__module__ == mod.__name__ and nd.id.startswith('_') and nd.id != '_arctan2':
+                            todo.append(nd.id)
+                        elif isinstance(h, (int, float, str, tuple)) and not nd.id.startswith('__') and nd.id in vars(mod) and nd.id not in ('n', 'np'):
+                            parts.append('const %s=%r' % (nd.id, h))
+        return '|'.join([parts[0]] + sorted(set(parts[1:])))
     ident = []
     for f in shared:
-        a = norm(inspect.getsource(getattr(tools, f)), 'n')
-        b = norm(inspect.getsource(getattr(laue, f)), 'np')
+        a = closure_text(tools, 'n', f)
+        b = closure_text(laue, 'np', f)
         if a == b:
             ident.append(f)
     if sorted(ident) != sorted(meta['identical']):
